@@ -95,7 +95,7 @@ class Solver(pl.LightningModule):
             condition._move_static_data(self.device)
         for condition in self.val_conditions:
             condition._move_static_data(self.device)
-        self.n_training_step = 0
+        self.n_training_step = self.trainer.global_step
 
     def training_step(self, batch, batch_idx):
         loss = torch.zeros(1, requires_grad=True, device=self.device)
